@@ -179,6 +179,10 @@
  * reading/writing. */
 #ifndef PACK_STORAGE_COMPACT
 #define SLOT_CAN_HOLD_ENTIRE_VALUE 1
+#elif PACK_STORAGE_BITS <= 8
+/* Compact storage of <= 8 bit values uses one-byte slots, so a value *can*
+ * sit inside a single slot and must not touch the following one. */
+#define SLOT_CAN_HOLD_ENTIRE_VALUE 1
 #endif
 /* We can't define HOLD_ENTIRE_VALUE as below because BITS_PER_SLOT has sizeof()
  * the preprocessor doesn't know about.  We don't want to manually define bit
